@@ -305,7 +305,7 @@ pub fn run(ctx: &Ctx, rep: &mut Report) {
     rep.prop(
         "files",
         "proptest: 24-byte header (valid UTF-8 and arbitrary bytes; date 1..=65535) + 0..40 records whose bodies are bzip2(payload) for payloads {empty, 1-7 bytes, random, 1-70 KB patterns, 64 KiB, fake-magic, nested bzip2, valid message streams} or raw bytes (incl. empty, incl. 'BZ'-prefixed), size prefix written positive or negative; non-trivial = >= 2 records with >= 1 compressed and >= 1 negative prefix or zero-length body",
-        ctx.tier.pick(8_000, 600_000),
+        ctx.tier.pick(20_000, 600_000),
         || {
             let n = prop_oneof![1 => Just(0usize), 2 => Just(1usize), 8 => 2usize..=6, 2 => 7usize..=40];
             (header_strategy(), n.prop_flat_map(|n| vec(record_strategy(), n))).prop_map(|(header, records)| FileCase { header, records })
@@ -316,7 +316,7 @@ pub fn run(ctx: &Ctx, rep: &mut Report) {
     rep.prop(
         "decompress-after-failure",
         "proptest (operation sequence): decompress a damaged multi-block record (stream truncated or a byte flipped in its last two thirds, so that output was already produced when the failure occurs), then decompress a well-formed record on the same thread, up to 4 rounds: the second result must be its payload byte-for-byte; every case is non-trivial",
-        ctx.tier.pick(160, 12_000),
+        ctx.tier.pick(600, 12_000),
         || {
             (any::<u64>(), 150_000u32..=420_000, any::<u8>(), any::<u16>(), payload_strategy(), 0u8..=3).prop_map(|(damaged_seed, damaged_len, damage_kind, at, good, repeats)| AfterFailureCase { damaged_seed, damaged_len, damage_kind, at, good, repeats })
         },
